@@ -161,7 +161,7 @@ def run(ctx: core.Ctx):
                 ctx.violate(fam, key, what, rp)
     jobs, desc = e2e.build_jobs(ctx)
     results = core.pmap(e2e.eval_state, jobs)
-    e2e.book(ctx, results, ("C02.",), lambda fam, n: GROUND if n <= 4 else BOUNDED)
+    e2e.book(ctx, results, ("C02.", "Q4."), lambda fam, n: GROUND if n <= 4 else BOUNDED)
     # compressed circuits
     from .c07 import circuit_jobs, eval_circuit
     cres = core.pmap(eval_circuit, circuit_jobs(ctx, small=True))
